@@ -881,6 +881,7 @@ func buildC03(seed int64) []*cell {
 		out = append(out, famStmtK(m, vals)...)
 		out = append(out, famStmtMixed(m, vals)...)
 		out = append(out, famNeg(m, vals)...)
+		out = append(out, famNamed(m, vals)...)
 	}
 
 	return out
